@@ -1319,6 +1319,16 @@ def _translator_checks(eng):
         return
     for item in c13_tr.selftest(texts):
         yield item
+    # the default parameter values the call model (ALV/Model/C13Call.lean: combCall, alpha = 1, tau = inf) copies,
+    # read from the `def` lines by the translator
+    _, infos = c13_tr.translate(texts)
+    got = {i["strategy"]: dict(zip(i["params"], i["defaults"])) for i in infos}
+    want = {"comb.fb": {"delay": None, "alpha": "1"}, "comb.tau": {"delay": None, "tau": "inf"},
+            "comb.ff": {"delay": None, "alpha": "1"}}
+    bad = {k: got.get(k) for k in want if got.get(k) != want[k]}
+    bad.update({k: v for k, v in got.items() if k not in want and any(d is not None for d in v.values())})
+    yield ("translator-defaults", not bad, "default parameter values in the source differ from the call model's: %r" % bad
+           if bad else "comb.fb alpha=1, comb.tau tau=inf, comb.ff alpha=1; no other translated strategy has a default")
     good = c13_tr.committed_text()
     if good is None:
         yield ("translator-reproduces-committed", False, "lean/" + c13_tr.GEN_REL + " is not committed")
